@@ -317,7 +317,9 @@ m("c18-strtok-parser", "C18", H3INDEX,
     if (read != 1) {
         return E_FAILED;
     }""",
-  "stringToH3: strtok-based parser (state in libc, not trapped; interleaving-dependent and benign here)", "none-expected")
+  "stringToH3: strtok-based parser (its results never depend on the interleaving, but two concurrent calls write "
+  "libc's one saved-position object: a data race through the library, and the caller's own tokenising loop is "
+  "clobbered)", "I6-ambient-state")
 
 m("c18-strtok-trailing-token", "C18", H3INDEX,
   """    int read = sscanf(str, "%" PRIx64, &h);
